@@ -120,6 +120,52 @@ def _addbb(ex, v):
     return [BBVal(ex.ctx.fresh("blackbox", ex.ctx.BB)), NameV(ex.ctx.fresh_name("name"))], {}
 
 
+def setter_on_body(qual, param, shapes):
+    """set_output(ns, flag) with an arbitrary list / set (absent nodes included: the real loop sets the flag of the
+    elements before the first absent one and then raises KeyError): `wired` holds on every exit and the edge set is
+    unchanged -- proved on the body (the loop invariant: everything but the output attributes is unchanged)."""
+    def run(ctx):
+        fn, seg, sha = engine.find_function(F, qual)
+        info = {"function": f"{F}::{qual}", "sha256": sha, "lines": [fn.lineno, fn.end_lineno], "variants": [], "kind": "postcondition on the body"}
+        for shape in shapes:
+            label = f"C07:{qual}[{shape}, any elements]"
+
+            def loop(ex, s, st, it, ordinal):
+                me = st.env["self"]
+                g_in = st.g(me)
+                def inv(ex, stx, done):
+                    g = stx.g(me)
+                    x = ctx.fresh_name("lx")
+                    return [("rest-unchanged", g.same(g_in, ctx, fields=["N", "hasty", "ty", "FI"])),
+                            ("flags-only-on-nodes", z3.ForAll([x], z3.Implies(z3.Select(g.hasout, x), g.node(x))))]
+                return ex.invariant_for(s, st, it, ordinal, inv, mod_objs=[me], label="set-flags")
+            ex = Exec(ctx, summaries={k: v for k, v in ALL_SUMMARIES.items() if k != qual}, module_consts=engine.module_constants(F), loop_specs={1: loop}, fname=label)
+            st0 = State({}, {}, [])
+            me = verify.mk_circuit(ex, st0, "self", wf=False)
+            pin = ctx.template(("", ".", ""))
+            g0, bb0 = st0.g(me), st0.bb(me)
+            st0.pc.append(spec.wired(ctx, g0, bb0, pin))
+            bind = {"self": me, param: _arg(ex, shape, "ns"), "output": ex.ctx.fresh("flag", z3.BoolSort())}
+            n_ret = n_exc = 0
+            for o in verify.bind_and_run(ex, fn, st0, bind):
+                i = o.st.pathid()
+                g1, bb1 = o.st.g(me), o.st.bb(me)
+                what = "raise(" + str(o.exc) + ")" if o.kind == "raise" else "return"
+                for lab, f in [("graph-invariant", g1.wf(ctx)), ("typed", spec.typed(ctx, g1)), ("wiring", spec.wired_edges(ctx, g1)),
+                               ("registry", spec.registry_ok(ctx, g1, bb1, pin, None))]:
+                    ctx.oblige(f"{label}/wired#{i}:{what}:{lab}", o.st.pc, f, "post")
+                ctx.oblige(f"{label}/edges-unchanged#{i}:{what}", o.st.pc, spec.same_edges(ctx, g1, g0), "post")
+                if o.kind == "raise":
+                    n_exc += 1
+                    ctx.oblige(f"{label}/rejected-call-class#{i}:{what}", o.st.pc, z3.BoolVal(o.exc in ("ValueError", "KeyError")), "post")
+                else:
+                    n_ret += 1
+            ctx.oblige(f"{label}/cover:returns-and-rejects", [], z3.BoolVal(n_ret > 0 and n_exc > 0), "cover")
+            info["variants"].append(shape)
+        return info
+    return run
+
+
 PAIRS = ["str,str", "list,list", "str,list", "list,str", "set,str", "str,set"]
 ADDV = [f"{a},{b}" for a in ("none", "str", "list") for b in ("none", "str", "list")]
 TASKS = {
@@ -131,5 +177,6 @@ TASKS = {
     "C07/add[uid]": lemma_task("Circuit.add", ADDV, _add(True)),
     "C07/add_subcircuit[no connections]": lemma_add_subcircuit([(0, True), (0, False)]),
     "C07/add_subcircuit[1 connection]": lemma_add_subcircuit([(1, True)]),
+    "C07/set_output[list] on the body": setter_on_body("Circuit.set_output", "ns", ["list", "set"]),
     "C07/add_blackbox": lemma_task("Circuit.add_blackbox", ["no connections"], _addbb),
 }
